@@ -446,3 +446,28 @@ def _mag(s, sigma, limit):
     if r > limit:
         raise _TooBig()
     return r
+
+
+MATH_UNDEFINED = ("division by zero", "zero to a negative power", "factorial domain", "non-integer power of a non-positive base")
+
+
+def definedness(s, sigma):
+    """'defined' | 'undefined' (mathematically: division by zero, 0^negative, factorial
+    outside its domain, fractional power of a non-positive base) | 'limit' (the oracle's own
+    bounds: magnitude, exponent size, unbound variable...).  Only defined-vs-undefined is a
+    difference between two expressions; 'limit' depends on the evaluation order."""
+    try:
+        ev(s, sigma)
+        return "defined"
+    except Undef as u:
+        return "undefined" if u.reason in MATH_UNDEFINED else "limit"
+
+
+def definedness_differs(sa, sb, sigmas):
+    """first assignment at which exactly one of the two is mathematically undefined while the
+    other is defined, or None"""
+    for s0 in sigmas:
+        da, db = definedness(sa, s0), definedness(sb, s0)
+        if {da, db} == {"defined", "undefined"}:
+            return s0, da, db
+    return None
